@@ -2,5 +2,5 @@ package rules
 
 import "s3dbcheck/core"
 
-// SelfValidate is filled in by selftest_run.go (thorough tier).
-var SelfValidate = func(p *core.Program, id string, r *core.Report, seed int64) map[string]any { return nil }
+// SelfValidate is installed by selftest_run.go (thorough tier).
+var SelfValidate func(p *core.Program, id string, r *core.Report, seed int64) map[string]any
